@@ -252,6 +252,8 @@ class Parser(AttrParser):
                     [(original_definition, None)],
                 )
             self.forward_block_references.pop(name)
+            # record the definition, so that a second one is a re-declaration error
+            self.blocks[name] = (block, name_token.span)
 
         # Don't set name_hint for blocks that match the default pattern, or whose
         # name (e.g. `^42`) is a valid block id but not a valid name hint
